@@ -115,12 +115,19 @@ REG.contract(T + "BSpline._initialize", params=BS_PARAMS,
 REG.contract(T + "BSpline.eval", params={"x": "arr1"}, returns="arr2", tags=["C14", "C06"],
              requires=["self._knots.shape[0] - (self._degree + 1) >= 1"],
              ensures=["result.shape[0] == x.shape[0]",
-                      "result.shape[1] == self._knots.shape[0] - (self._degree + 1) - (0 if self._intercept else 1)"],
+                      "result.shape[1] == self._knots.shape[0] - (self._degree + 1) - (0 if self._intercept else 1)",
+                      # row r holds the basis functions of the remembered knots at x[r] (the first one dropped without intercept):
+                      # a function of x[r] and the fitted parameters only
+                      "forall(0, x.shape[0], lambda r: forall(0, result.shape[1], lambda c: "
+                      "result[r, c] == bs_basis(self, x[r], c + (0 if self._intercept else 1))))"],
              loops={1: Loop(invariant=["0 <= _i1", "basis.shape[0] == x.shape[0]",
-                                       "basis.shape[1] == self._knots.shape[0] - (self._degree + 1)"],
+                                       "basis.shape[1] == self._knots.shape[0] - (self._degree + 1)",
+                                       "forall(0, x.shape[0], lambda r: forall(0, _i1, lambda c: basis[r, c] == bs_basis(self, x[r], c)))"],
                             havoc={"basis": "arr2"})})
 REG.contract(T + "BSpline.__call__", params=BS_PARAMS, returns="arr2", tags=WO + ["C14"],
-             requires=["implies(self.params_set, self._knots.shape[0] - (self._degree + 1) >= 1)", "x.shape[0] >= 1"],
+             frame_when={"self.params_set": ["self.params_set", "self._intercept", "self._degree", "self._knots"]},
+             requires=["implies(self.params_set, self._knots.shape[0] - (self._degree + 1) >= 1)",
+                       "implies(not self.params_set, x.shape[0] >= 1)"],
              modifies=["self.params_set", "self._intercept", "self._degree", "self._knots"],
              raises={"ValueError": None},
              ensures=["self.params_set",
@@ -133,13 +140,60 @@ REG.contract(T + "BSpline.__call__", params=BS_PARAMS, returns="arr2", tags=WO +
                       "result.shape[1] == (len(knots) if knots is not None else 0) + degree + (1 if intercept else 0))",
                       # later calls: the column count fixed at training, whatever is passed now
                       "implies(old(self.params_set), result.shape[1] == old(self._knots.shape[0]) - (old(self._degree) + 1) - "
-                      "(0 if old(self._intercept) else 1))"])
+                      "(0 if old(self._intercept) else 1))",
+                      # the class invariant of a fitted transform, and the column count in terms of the remembered parameters
+                      "self._knots.shape[0] - (self._degree + 1) >= 1",
+                      "result.shape[1] == self._knots.shape[0] - (self._degree + 1) - (0 if self._intercept else 1)",
+                      # every row is a function of its own x value and of the parameters remembered from the first call
+                      "forall(0, x.shape[0], lambda r: forall(0, result.shape[1], lambda c: "
+                      "result[r, c] == bs_basis(self, x[r], c + (0 if self._intercept else 1))))"])
+
+
+def _bs_fun():
+    return ufun("bs.basis", R_, z3.ArraySort(I_, R_), I_, I_, I_, R_)
 
 
 def _splev(I, a, kw, node):
+    """scipy.interpolate.splev(x, (knots, coefs, degree)): one value per entry of x. For a unit coefficient vector e_i (what
+    BSpline.eval passes) the value at x[r] is the i-th B-spline basis function of (knots, degree) at x[r] - an uninterpreted
+    function of (x[r], knots, degree, i); for other coefficient vectors nothing is known."""
     x = a[0]
+    tck = a[1] if len(a) > 1 else None
+    if isinstance(tck, tuple) and len(tck) == 3 and isinstance(tck[0], SArr) and isinstance(tck[1], SArr):
+        knots, coefs, degree = tck
+        j = z3.Int("sp_j")
+        probe = z3.simplify(coefs.at(j, z3.IntVal(0)))
+        e = None
+        if z3.is_app(probe) and probe.decl().kind() == z3.Z3_OP_ITE:
+            c, t1, t0 = probe.children()
+            if z3.is_eq(c) and z3.is_rational_value(t1) and z3.is_rational_value(t0) and t1.as_fraction() == 1 and t0.as_fraction() == 0:
+                l, r = c.children()
+                e = r if l.eq(j) else (l if r.eq(j) else None)
+        if e is not None:
+            B = _bs_fun()
+            kl = _as_lambda(knots)
+            from vf.pyvc.ops import int_term
+            dg = int_term(degree)
+            return SArr(1, x.n0, z3.IntVal(1), lambda i, jj: B(x.at(i, z3.IntVal(0)), kl, knots.n0, dg, e), "num", True)
     f = z3.Function(str(I.ctx.fresh("splev.el", I_)), I_, I_, R_)
     return SArr(1, x.n0, z3.IntVal(1), lambda i, j: f(i, j), "num", True)
+
+
+def bs_basis(t, v, i):
+    """value at v of the i-th B-spline basis function of the transform's knots and degree (specification helper; executable)"""
+    c = np.zeros(len(t._knots) - (t._degree + 1))
+    c[i] = 1
+    return float(splev(v, (t._knots, c, t._degree)))
+
+
+def _m_bs_basis(I, a, kw, node):
+    from vf.pyvc.ops import int_term
+    t, v, i = a
+    knots = t.fields["_knots"]
+    return SReal(_bs_fun()(rterm(v), _as_lambda(knots), knots.n0, int_term(t.fields["_degree"]), int_term(i)))
+
+
+REG.externals[f"{__name__}.bs_basis"] = _m_bs_basis
 
 
 REG.external_objects[splev] = _splev
